@@ -474,7 +474,7 @@ func (ex *Exec) discharge(opts VerifyOpts) []OblResult {
 			results[i] = OblResult{Name: name, Status: "skipped"}
 			continue
 		}
-		var disj, weak []string
+		var disj, weak, reach []string
 		var where []string
 		hasQuant := ex.c.HasQuantAxioms()
 		for _, in := range o.Insts {
@@ -491,6 +491,7 @@ func (ex *Exec) discharge(opts VerifyOpts) []OblResult {
 				qf = append(qf, c)
 			}
 			weak = append(weak, and(and(qf...), not(in.Goal)))
+			reach = append(reach, and(qf...))
 			where = append(where, in.Pos)
 		}
 		r := OblResult{Name: name, Kind: o.Kind, Func: o.Func, Text: o.Text, Insts: len(o.Insts), Where: strings.Join(uniq(where), ",")}
@@ -506,9 +507,25 @@ func (ex *Exec) discharge(opts VerifyOpts) []OblResult {
 			weakScript = ex.c.PreludeNoQuantAxioms() + "(assert " + or(weak...) + ")\n"
 		}
 		r.Script = script
+		reachScript := ""
+		switch o.Kind {
+		case "ensures", "at-call", "invariant", "decreases", "requires", "frame", "lemma":
+			reachScript = ex.c.PreludeNoQuantAxioms() + "(assert " + or(reach...) + ")\n"
+		}
 		wg.Add(1)
 		go func(i int, r OblResult, o *Obligation, script, weakScript string) {
 			defer wg.Done()
+			defer func() {
+				// vacuity guard: a proved obligation whose every instance sits on a contradictory path proves nothing
+				if results[i].Status == "proved" && reachScript != "" {
+					rr := Solve(reachScript, 5*time.Second, false)
+					results[i].SolverMs += rr.Ms
+					if rr.Status == "unsat" {
+						results[i].Status = "vacuous"
+						results[i].Raw = "every path that reaches this obligation has contradictory hypotheses (quantifier-free part already unsatisfiable): nothing is proved"
+					}
+				}
+			}()
 			var weakRes *SolverResult
 			if weakScript != "" {
 				// first without the quantified assumptions: unsat there is unsat with them
